@@ -1654,6 +1654,11 @@ func (ck *checker) stage(side int, kind string, st int, req, allowed []pref, act
 		ck.report("registration-order", kind, qp[1].Class,
 			fmt.Sprintf("%s: %s (%s) fired before %s (%s)", where, qp[0].Name, qp[0].Class, qp[1].Name, qp[1].Class))
 	}
+	if veto != nil && find(req, veto.Plug) == nil {
+		// a non-OK verdict from a plug-in that should not have seen the message (reported above) ended the stage somewhere:
+		// which of the applicable hooks still had to run is not defined
+		active = false
+	}
 	if active {
 		for i := range req {
 			p := &req[i]
